@@ -1,3 +1,89 @@
 import KsiVerif.Util.DriverMain
-open KsiVerif
-def main : IO Unit := runDriver (fun i _ => "skip no-model-yet " ++ i)
+import KsiVerif.Util.VerifyDrv
+import KsiVerif.Model.Sign
+/-! Model driver for C07 — protocol in harness/exec_c07.c. -/
+open KsiVerif KsiVerif.Template KsiVerif.Verify KsiVerif.Policy KsiVerif.VerifyDrv KsiVerif.Sign
+
+def sigStr (s : Sig) : String := reprStr s
+
+/-- the property on the implementation's own result: it parses, its input hash is the requested one, its first level
+correction covers the requested level, and it verifies internally for that hash -/
+def resultSpec (hash : Bytes) (level : Nat) (res : Bytes) : Option String :=
+  match parseSignature cfg res with
+  | .error e => some s!"returned-signature-does-not-parse-{e}"
+  | .ok vs =>
+    let s := Sig.ofVals cfg.tabs vs
+    if s.docHash != hash then some "returned-signature-is-for-another-hash"
+    else if s.rfc.isNone && (((s.chains.head?.bind (·.links.head?)).map (·.lc)).getD 0) < level then some "returned-signature-does-not-carry-the-requested-level"
+    else if !isOKb (verifyWith Hreal Gen.policy_internal s ⟨some hash, 0⟩) then some "returned-signature-fails-internal-verification-for-the-requested-hash"
+    else none
+
+def handle (inp out : String) : String :=
+  match words inp with
+  | "s" :: hashHex :: level :: ver :: keyHex :: replyHex :: rest =>
+    let label := rest.headD "-"
+    let ows := words out
+    let st := ows.headD "?"
+    match ofHex hashHex, level.toNat?, ver.toNat?, ofHex keyHex, ofHex replyHex with
+    | some hash, some lv, some v, some key, some reply =>
+      let resHex := (ows.find? (·.startsWith "R")).map fun w => (w.drop 1).toString
+      let viol : Option String :=
+        if ows.contains "RESULT-WITH-ERROR" then some "a-signature-was-returned-together-with-an-error"
+        else if ows.contains "OK-WITHOUT-RESULT" then some "success-without-a-signature"
+        else if label != "ok" && st == "S0" then some s!"signed-although-{label}"
+        else if label == "ok" && st != "S0" then some s!"honest-reply-refused-{st}"
+        else match resHex.bind ofHex with
+          | some res => resultSpec hash lv res
+          | none => none
+      match viol with
+      | some why => s!"specfail s:{label} {why}"
+      | none =>
+        match signAggregated Hreal cfg hash lv 1 v none key reply with
+        | .error e =>
+          if st == s!"S{e}" then s!"ok s:{label}:{st}" else s!"diff s:{label}:{st} model=S{e}"
+        | .ok s =>
+          match resHex.bind ofHex with
+          | some res =>
+            match parseSignature cfg res with
+            | .ok vs => if sigStr (Sig.ofVals cfg.tabs vs) == sigStr s then s!"ok s:{label}:S0" else s!"diff s:{label}:S0 model-signature-differs"
+            | .error e => s!"diff s:{label}:S0 result-unparsable-{e}"
+          | none => s!"diff s:{label}:{st} model=S0"
+    | _, _, _, _, _ => "skip bad-args"
+  | "q" :: hashHex :: level :: ver :: loginHex :: _key :: rest =>
+    let label := rest.headD "-"
+    let ows := words out
+    let st := ows.headD "?"
+    match ofHex hashHex, level.toNat?, ver.toNat?, ofHex loginHex with
+    | some hash, some lv, some v, some login =>
+      let expectSt := if lv > 0xff then St.INVALID_ARGUMENT else if !trusted (hash.headD 0).toNat then UNTRUSTED_HASH_ALGORITHM else 0
+      if st != s!"Q{expectSt}" then
+        (if expectSt != 0 && st == "Q0" then s!"specfail q:{label} request-sent-although-{label}" else s!"diff q:{label}:{st} model=Q{expectSt}")
+      else if expectSt != 0 then s!"ok q:{label}:{st}"
+      else match (ows.getD 1 "-" |> ofHex) with
+        | none => "skip bad-request-hex"
+        | some rq =>
+          match parseAggrPdu cfg v rq with
+          | .error e => s!"specfail q:{label} request-does-not-parse-{e}"
+          | .ok pdu =>
+            let root := PduMac.rootTagOf rq
+            let tn := PduMac.pduTable .aggr root
+            let reqTag := if root = 0x200 then 0x201 else 0x02
+            let hdr := PduMac.fieldOf cfg.tabs tn 0x01 pdu
+            let loginOk := match hdr with
+              | some (.obj hs) => vBytes (fld cfg.tabs "KSI_Header" 0x01 hs) == some (login ++ [0])
+              | _ => false
+            match PduMac.fieldOf cfg.tabs tn reqTag pdu with
+            | some (.obj fs) =>
+              let rn := if root = 0x200 then "KSI_AggregationReq" else "KSI_AggregationReq_v2"
+              let h := vBytes (fld cfg.tabs rn 0x02 fs)
+              let l := vInt (fld cfg.tabs rn 0x03 fs)
+              if h != some hash then s!"specfail q:{label} request-carries-another-hash"
+              else if l.getD 0 != lv then s!"specfail q:{label} request-carries-level-{l.getD 0}"
+              else if !loginOk then s!"specfail q:{label} request-carries-another-login-id"
+              else if (vInt (fld cfg.tabs rn 0x01 fs)) != some 1 then s!"specfail q:{label} first-request-id-is-not-1"
+              else s!"ok q:{label}:Q0:v{v}"
+            | _ => s!"specfail q:{label} request-has-no-request-payload"
+    | _, _, _, _ => "skip bad-args"
+  | _ => "skip unknown-op"
+
+def main : IO Unit := runDriver handle
